@@ -169,6 +169,7 @@ func GetToken(input string, valTy *ValType, pos *int) int {
 		// 'y' and 'x' are codes just above the largest token code (where the generator numbers its
 		// nonterminals); every other unknown letter is 9999
 		if (c == 24 || c == 23) && len(codes) > 0 { m := codes[0]; for _, v := range codes { if v > m { m = v } }; return m + 25 - c }
+		if c == 22 { return 0 } // 'w': the code 0 that example lexers return for an unknown character
 		return 9999
 	}
 	return codes[c]
@@ -204,6 +205,7 @@ function GetToken(input :string, model:{ValType :ValType, pos :number}) :number 
 	model.pos++;
 	if (c < 0 || c >= codes.length) {
 		if ((c == 24 || c == 23) && codes.length > 0) { return Math.max(...codes) + 25 - c }
+		if (c == 22) { return 0 }
 		return 9999
 	}
 	return codes[c];
@@ -315,10 +317,11 @@ def tok_map(xs, sc):
         codes.append(code)
     # letters 'x' (23) and 'y' (24): the codes just above the largest token code, through this file's own translate
     known = [c for c in codes if c is not None]
-    if known and len(out) < 23 and len(known) == len(codes):
+    if known and len(out) < 22 and len(known) == len(codes):
         out += [0] * (26 - len(out))
         out[24] = sc["translate"].get(max(known) + 1, 0)
         out[23] = sc["translate"].get(max(known) + 2, 0)
+        out[22] = sc["translate"].get(0, 0)           # letter 'w' = code 0
     return out
 
 
@@ -590,6 +593,7 @@ func GetToken(input string, valTy *ValType, pos *int) int {
 		// 'y' and 'x' are codes just above the largest token code (where the generator numbers its
 		// nonterminals); every other unknown letter is 9999
 		if (c == 24 || c == 23) && len(codes) > 0 { m := codes[0]; for _, v := range codes { if v > m { m = v } }; return m + 25 - c }
+		if c == 22 { return 0 } // 'w': the code 0 that example lexers return for an unknown character
 		return 9999
 	}
 	return codes[c]
@@ -830,13 +834,16 @@ import "os"
 }
 %token <val> NUM
 %token <str> SUB
-%type <val> E
+%type <val> E Q
 %left '+'
 %start E
 %%
 E : E '+' E { $$ = $1 + $3 }
   | NUM { $$ = $1 }
-  | SUB { PushContex(); ParserInit(); v := Parser($1); PopContex(); $$ = v.val * 2 }
+  | Q { $$ = $1 }
+  | Q NUM { $$ = $1 * 1000 + $2 }
+  ;
+Q : SUB { PushContex(); ParserInit(); v := Parser($1); PopContex(); $$ = v.val * 2 }
   ;
 %%
 func GetToken(input string, valTy *ValType, pos *int) int {
@@ -879,7 +886,7 @@ func main() {
 """
 
 NESTED_INPUTS = ["1+2", "{2}", "1+{2}", "100+{2+}", "1+{2}", "{1+{2}}", "7+{{3}+1}", "50+{{4+}+1}", "1+{2}", "{{1}+{2}}+3",
-                 "9+", "1+{2}", "{", "3+{4}+{5+{6}}", "100+{+}", "{1}+{2}"]
+                 "9+", "1+{2}", "{", "3+{4}+{5+{6}}", "100+{+}", "{1}+{2}", "{1+2}5", "4+{3}7", "{{2}9}1+{6}8", "{10}7+1"]
 
 
 def nested_expected(w):
@@ -910,7 +917,14 @@ def nested_expected(w):
                     v = expr(s[i + 1:j])
                     if v is None:
                         return None
-                    total += 2 * v; i = j + 1
+                    i = j + 1
+                    if i < len(s) and s[i].isdigit():      # `{…}` directly followed by a number: Q NUM
+                        j = i
+                        while j < len(s) and s[j].isdigit():
+                            j += 1
+                        total += 2 * v * 1000 + int(s[i:j]); i = j
+                    else:
+                        total += 2 * v
                 else:
                     return None
                 need = False
@@ -924,44 +938,73 @@ def nested_expected(w):
     return "reject" if v is None else "accept %d" % v
 
 
-def run_c15_nested(rng, with_expected=False):
-    """A grammar whose action parses a sub-string with the SAME global parser (PushContex / ParserInit /
-    Parser / PopContex, the context stack of the package-global template).  A history of such parses,
-    some failing inside the nested parse, each preceded by ParserInit(); every result must equal the
-    result of the same input alone in a fresh process.  Returns (ties, violations, evaluations)."""
-    work = common.tmpdir("c15n")
-    ties, viol = [], []
-    open(os.path.join(work, "n.y"), "w").write(NESTED_Y)
-    open(os.path.join(work, "go.mod"), "w").write("module nested\n\ngo 1.18\n")
-    p = common.sh([os.path.join(common.BIN, "yaccgo"), "generate", "go", "n.y", "p.go"], cwd=work, timeout=60)
-    if p.returncode != 0 or not os.path.exists(os.path.join(work, "p.go")):
-        return [{"what": "nested-parse grammar is not generated", "detail": (p.stdout + p.stderr).decode(errors="replace")[-800:]}], [], 0
-    b = common.sh(["go", "build", "-o", "n.bin", "."], cwd=work, env=common.GOENV, timeout=300)
-    if b.returncode != 0:
-        return [{"what": "nested-parse parser does not compile", "detail": b.stderr.decode(errors="replace")[-1200:]}], [], 0
-    hist = list(NESTED_INPUTS)
-    extra = list(NESTED_INPUTS)
-    rng.shuffle(extra)
-    hist += extra
+def nested_variant(obj, counter):
+    """NESTED_Y rewritten for the -o (context object) form and/or with a lexer that COUNTS tokens in the
+    value cell it is handed (the cell is fresh and zero at the start of every parse)"""
+    y = NESTED_Y
+    if counter:
+        y = y.replace(" val int\n str string\n", " val int\n str string\n cnt int\n")
+        y = y.replace("\tif *pos >= len(input) { return -1 }\n\tc := input[*pos]\n",
+                      "\tif *pos >= len(input) { return -1 }\n\tvalTy.cnt++\n\tc := input[*pos]\n")
+        y = y.replace("\t\tvalTy.val = n\n", "\t\tvalTy.val = n + 1000*valTy.cnt\n")
+    if obj:
+        y = y.replace("PushContex(); ParserInit(); v := Parser($1); PopContex(); $$ = v.val * 2",
+                      "sub := MakeParserContext(); v := sub.Parser($1); $$ = v.val * 2")
+        y = y.replace("\tParserInit()\n\tv := Parser(in)\n", "\tTheCtx.ParserInit()\n\tv := TheCtx.Parser(in)\n")
+        y = y.replace("func run(in string) (out string) {", "var TheCtx = MakeParserContext()\nfunc run(in string) (out string) {")
+    return y
 
-    def go(lines):
-        r = common.sh([os.path.join(work, "n.bin")], inp=("\n".join(lines) + "\n").encode(), timeout=60)
-        return [l[4:] for l in r.stdout.decode(errors="replace").split("\n") if l.startswith("OUT ")]
-    solo = {}
-    for w in sorted(set(hist)):
-        o = go([w])
-        solo[w] = o[0] if o else None
-    got = go(hist)
-    if len(got) != len(hist):
-        ties.append({"what": "nested-parse history run incomplete", "got": len(got), "want": len(hist)})
-    for i, (w, g) in enumerate(zip(hist, got)):
-        if solo.get(w) is None:
-            ties.append({"what": "no solo reference run (nested)", "input": w})
-        elif g != solo[w]:
-            viol.append({"input": w, "position_in_history": i, "history": hist[:i + 1], "got": g, "alone": solo[w], "grammar_file": NESTED_Y})
+
+def run_c15_nested(rng, with_expected=False):
+    """Grammars whose action parses a sub-string with a nested parse: the package-global form through
+    PushContex / ParserInit / Parser / PopContex, the -o form through a second context; also with a lexer
+    that keeps a counter in the value cell.  A history of such parses, some failing inside the nested
+    parse, each preceded by ParserInit(); every result must equal the result of the same input alone in
+    a fresh process.  Returns (ties, violations, evaluations)."""
+    scenarios = [("global", NESTED_Y, []), ("-o, nested parse on a second context", nested_variant(True, False), ["-o"])]
+    if not with_expected:
+        scenarios += [("global, counting lexer", nested_variant(False, True), []),
+                      ("-o, counting lexer", nested_variant(True, True), ["-o"])]
+    ties, viol, evals = [], [], 0
+    wrong_all, solo_n = [], 0
+    for label, ytext, flags in scenarios:
+        work = common.tmpdir("c15n")
+        open(os.path.join(work, "n.y"), "w").write(ytext)
+        open(os.path.join(work, "go.mod"), "w").write("module nested\n\ngo 1.18\n")
+        p = common.sh([os.path.join(common.BIN, "yaccgo"), "generate"] + flags + ["go", "n.y", "p.go"], cwd=work, timeout=60)
+        if p.returncode != 0 or not os.path.exists(os.path.join(work, "p.go")):
+            ties.append({"what": "nested-parse grammar is not generated (%s)" % label, "detail": (p.stdout + p.stderr).decode(errors="replace")[-800:]})
+            continue
+        b = common.sh(["go", "build", "-o", "n.bin", "."], cwd=work, env=common.GOENV, timeout=300)
+        if b.returncode != 0:
+            ties.append({"what": "nested-parse parser does not compile (%s)" % label, "detail": b.stderr.decode(errors="replace")[-1200:]})
+            continue
+        hist = list(NESTED_INPUTS)
+        extra = list(NESTED_INPUTS)
+        rng.shuffle(extra)
+        hist += extra
+
+        def go(lines, work=work):
+            r = common.sh([os.path.join(work, "n.bin")], inp=("\n".join(lines) + "\n").encode(), timeout=60)
+            return [l[4:] for l in r.stdout.decode(errors="replace").split("\n") if l.startswith("OUT ")]
+        solo = {}
+        for w in sorted(set(hist)):
+            o = go([w])
+            solo[w] = o[0] if o else None
+        got = go(hist)
+        evals += len(hist)
+        if len(got) != len(hist):
+            ties.append({"what": "nested-parse history run incomplete (%s)" % label, "got": len(got), "want": len(hist)})
+        for i, (w, g) in enumerate(zip(hist, got)):
+            if solo.get(w) is None:
+                ties.append({"what": "no solo reference run (nested, %s)" % label, "input": w})
+            elif g != solo[w]:
+                viol.append({"scenario": label, "input": w, "position_in_history": i, "history": hist[:i + 1], "got": g, "alone": solo[w], "grammar_file": ytext})
+        if with_expected:
+            # C07: the value of each input parsed alone against the independent evaluation
+            wrong_all += [{"scenario": label, "input": w, "got": solo[w], "expected": nested_expected(w), "grammar_file": ytext}
+                          for w in sorted(solo) if solo[w] is not None and solo[w] != nested_expected(w)]
+            solo_n += len(solo)
     if with_expected:
-        # C07: the value of each input parsed alone against the independent evaluation
-        wrong = [{"input": w, "got": solo[w], "expected": nested_expected(w), "grammar_file": NESTED_Y}
-                 for w in sorted(solo) if solo[w] is not None and solo[w] != nested_expected(w)]
-        return ties, wrong, len(solo)
-    return ties, viol, len(hist)
+        return ties, wrong_all, solo_n
+    return ties, viol, evals
